@@ -496,7 +496,7 @@ fn kind_of(c: &LoadCmp) -> Option<(String, String)> {
 }
 
 /// One task: a font × a mode × a contiguous ppem range; every glyph.
-fn run_task(jobs: &[FontJob], fi: usize, mode: Option<Hinting>, ppems: &[u32], l: &mut Local) {
+fn run_task(jobs: &[FontJob], fi: usize, mode: Option<Hinting>, ppems: &[u32], gids: Option<&[u32]>, l: &mut Local) {
     let job = &jobs[fi];
     let Some(mut font) = Font::new(&job.path) else {
         l.instantiate_failed.push((fi, 0, "Font::new".into()));
@@ -521,7 +521,15 @@ fn run_task(jobs: &[FontJob], fi: usize, mode: Option<Hinting>, ppems: &[u32], l
         }
         l.instances += 1;
         let class = mode_class(mode, ppem);
-        for gid in 0..job.glyphs {
+        let all_gids: Vec<u32>;
+        let gid_list: &[u32] = match gids {
+            Some(g) => g,
+            None => {
+                all_gids = (0..job.glyphs).collect();
+                &all_gids
+            }
+        };
+        for &gid in gid_list {
             let c = compare_load(&mut ft, &mut sk, gid, ppem != 0, hinting.is_none(), &mut scratch);
             l.loads += 1;
             match &c {
@@ -568,7 +576,7 @@ fn run_task(jobs: &[FontJob], fi: usize, mode: Option<Hinting>, ppems: &[u32], l
                 }
             }
         }
-        *l.per_font_loads.entry(fi).or_default() += job.glyphs as u64;
+        *l.per_font_loads.entry(fi).or_default() += gid_list.len() as u64;
     }
 }
 
@@ -607,6 +615,7 @@ fn body(run: &Run, replay: Option<&Value>) {
     run.assume("FreeType as compiled by freetype-sys from its bundled sources (the build fauntlet links) is the reference, including its version and default driver properties");
     run.assume("fauntlet's RegularizingPen is the cosmetic normalisation the property refers to; fauntlet's FreeTypeInstance/SkrifaInstance decide load flags and hinting options");
     run.assume("an interpreter-mode load on which FreeType itself aborts the glyph's bytecode (the same load with FT_LOAD_PEDANTIC returns an error; without it FreeType silently returns the unhinted outline) has no reference value and is outside the property; such loads are counted and listed in the evidence");
+    run.assume("a CFF load hinted by the font's own hints above 2000 ppem has no FreeType reference: FreeType's Adobe engine rejects it (psft.c CF2_MAX_SIZE, Glyph_Too_Big) and cff_slot_load silently retries unhinted, scaling the unscaled outline; measured on the unchanged tree: every hinted CFF load of the large-size family at ppem 2048 and 4000 whose hints move a point differs, none at ppem <= 2000; such loads are not enumerated (count in loads_not_enumerated_cff_hinted_above_freetype_2000ppem_limit); unhinted and auto-hinter loads at these sizes are enumerated and judged");
     run.assume("auto-hinter modes are judged only on fonts where the unchanged tree agrees with FreeType (the property's carve-out); excluded fonts are listed in bounds.auto_excluded_fonts and their measured disagreement is reported");
 
     let tmp = std::env::temp_dir().join(format!("c03-synth-{}", std::process::id()));
@@ -625,8 +634,9 @@ fn body(run: &Run, replay: Option<&Value>) {
     if run.tier == Tier::Quick {
         // quick: the three fonts with known baseline deviations that are small enough, plus small hinted
         // TrueType and CFF fonts; the large fonts are left to the thorough tier
-        jobs.retain(|j| j.in_quick);
+        // (fonts outside the filter stay in the list for the large-size family only)
     }
+    let quick = run.tier == Tier::Quick;
     jobs.extend(synth_jobs.iter().filter(|j| run.tier == Tier::Thorough || j.in_quick).cloned());
     let synth_count = jobs.iter().filter(|j| j.synthetic).count();
     let modes = modes();
@@ -658,8 +668,11 @@ fn body(run: &Run, replay: Option<&Value>) {
 
     // tasks in fixed order: font → mode → ppem chunk
     let chunk = 8usize;
-    let mut tasks: Vec<(usize, Option<Hinting>, Vec<u32>)> = vec![];
+    let mut tasks: Vec<(usize, Option<Hinting>, Vec<u32>, Option<Vec<u32>>)> = vec![];
     for (fi, job) in jobs.iter().enumerate() {
+        if quick && !job.in_quick {
+            continue; // large-size family only
+        }
         // the unscaled load (ppem 0) has no hinting dimension: done once, in the unhinted mode
         let n_font = match (run.tier, job.thorough_n) {
             (Tier::Thorough, Some(n)) => n,
@@ -675,9 +688,76 @@ fn body(run: &Run, replay: Option<&Value>) {
             }
             for c in ppems.chunks(chunk) {
                 // overlap by one ppem so that "changes with ppem" is evaluated across chunk borders too
-                tasks.push((fi, *m, c.to_vec()));
+                tasks.push((fi, *m, c.to_vec(), None));
             }
         }
+    }
+    // --- size families beyond the contiguous grid (ppem truncation: hdmx u8 sizes, anything u8/u16) ---
+    // (a) hdmx: every static TrueType font with an `hdmx` table, every glyph, every mode, the sizes
+    //     {s-1, s, s+1, 256+s, 512+s, 768+s : s a record size of that font} ∪ {255, 256, 257}
+    // (b) large sizes: every static font (also those outside the quick filter), a handful of glyphs,
+    //     unhinted + interpreter targets (+ auto-hinter on the quick-filter fonts), LARGE_PPEMS
+    let mut hdmx_family = serde_json::Map::new();
+    let mut large_loads = 0u64;
+    let mut hdmx_loads = 0u64;
+    let mut cff_no_reference = 0u64;
+    for (fi, job) in jobs.iter().enumerate() {
+        let sizes = if job.flavour == "glyf" { hdmx_sizes(job) } else { vec![] };
+        if !sizes.is_empty() {
+            let mut set: BTreeSet<u32> = [255, 256, 257].into_iter().collect();
+            for &s in &sizes {
+                for v in [s.saturating_sub(1), s, s + 1, 256 + s, 512 + s, 768 + s] {
+                    if v >= 1 {
+                        set.insert(v);
+                    }
+                }
+            }
+            let ppems: Vec<u32> = set.into_iter().collect();
+            // quick: fonts outside the quick filter contribute their first 64 glyphs only
+            let hdmx_gids: Option<Vec<u32>> = if quick && !job.in_quick { Some((0..job.glyphs.min(64)).collect()) } else { None };
+            let hdmx_glyphs = hdmx_gids.as_ref().map(|g| g.len() as u64).unwrap_or(job.glyphs as u64);
+            let mut nm = 0u64;
+            for m in modes.iter() {
+                if matches!(m, Some(Hinting::Auto(_))) && !(job.auto_modes && job.in_quick) {
+                    continue;
+                }
+                nm += 1;
+                for c in ppems.chunks(chunk) {
+                    tasks.push((fi, *m, c.to_vec(), hdmx_gids.clone()));
+                }
+            }
+            hdmx_loads += nm * ppems.len() as u64 * hdmx_glyphs;
+            hdmx_family.insert(job.name.clone(), json!({"record_sizes": sizes, "ppems": ranges(&ppems.iter().copied().collect()), "modes": nm, "glyphs": hdmx_glyphs}));
+        }
+        let n = job.glyphs;
+        let gids: Vec<u32> = [0, 1, 2, 3, n / 3, n / 2, 2 * n / 3, n.saturating_sub(1)]
+            .into_iter()
+            .filter(|g| *g < n)
+            .collect::<BTreeSet<u32>>()
+            .into_iter()
+            .collect();
+        for m in modes.iter() {
+            if matches!(m, Some(Hinting::Auto(_))) && !(job.auto_modes && job.in_quick) {
+                continue;
+            }
+            let mut ppems = LARGE_PPEMS.to_vec();
+            if job.flavour == "CFF" && matches!(m, Some(Hinting::Interpreter(_))) {
+                let before = ppems.len();
+                ppems.retain(|p| *p <= FT_CFF_HINTING_MAX_PPEM);
+                cff_no_reference += ((before - ppems.len()) * gids.len()) as u64;
+            }
+            large_loads += (ppems.len() * gids.len()) as u64;
+            tasks.push((fi, *m, ppems, Some(gids.clone())));
+        }
+    }
+    run.bound("large_ppem_family", json!(format!("ppem {:?} x every static corpus font (all {total_static}, also those outside the quick filter) and every synthetic font of the tier x glyph ids {{0,1,2,3,n/3,n/2,2n/3,n-1}} x unhinted + 5 interpreter targets (+ 5 auto-hinter targets on corpus fonts inside the quick filter)", LARGE_PPEMS)));
+    run.bound("hdmx_family", json!({"sizes": "s-1, s, s+1, 256+s, 512+s, 768+s for every record size s of the font, and 255, 256, 257; every glyph; every mode", "fonts": Value::Object(hdmx_family.clone())}));
+    run.count("hdmx_family_fonts", hdmx_family.len() as u64);
+    run.count("hdmx_family_loads", hdmx_loads);
+    run.count("large_ppem_family_loads", large_loads);
+    run.count("loads_not_enumerated_cff_hinted_above_freetype_2000ppem_limit", cff_no_reference);
+    if hdmx_family.len() < 2 {
+        run.machinery_error("hdmx family is vacuous: fewer than two fonts with an hdmx table (tinos_subset.ttf and the synthetic hdmx font are expected)");
     }
     run.count("fonts", jobs.len() as u64);
     run.count("fonts_corpus", (jobs.len() - synth_count) as u64);
@@ -693,9 +773,9 @@ fn body(run: &Run, replay: Option<&Value>) {
         .par_iter()
         .with_max_len(1)
         .fold(Local::default, |mut l, ti| {
-            let (fi, m, p) = &tasks[*ti];
+            let (fi, m, p, g) = &tasks[*ti];
             let t0 = std::time::Instant::now();
-            run_task(&jobs, *fi, *m, p, &mut l);
+            run_task(&jobs, *fi, *m, p, g.as_deref(), &mut l);
             *l.per_font_ns.entry((*fi, mode_class(*m, 1))).or_default() += t0.elapsed().as_nanos() as u64;
             l
         })
@@ -823,6 +903,52 @@ fn body(run: &Run, replay: Option<&Value>) {
 }
 
 const QUICK_MAX_GLYPHS: u32 = 700;
+/// Sizes around the u8 / u16-ish truncation points of a ppem, and some well above them.
+const LARGE_PPEMS: [u32; 10] = [255, 256, 257, 511, 512, 513, 1000, 2000, 2048, 4000];
+/// FreeType's Adobe CFF engine rejects glyphs above 2000 ppem (psft.c `CF2_MAX_SIZE`); cff_slot_load then
+/// retries *unhinted* and scales the unscaled outline (cffgload.c, `Glyph_Too_Big`): above this size
+/// FreeType has no "hinted by the font's own hints" output for a CFF font.
+const FT_CFF_HINTING_MAX_PPEM: u32 = 2000;
+/// Record sizes of the synthetic hdmx font.
+const SYNTH_HDMX_SIZES: [u8; 4] = [8, 11, 12, 255];
+
+/// The pixel sizes of a font's `hdmx` device records (empty: no table).
+fn hdmx_sizes(job: &FontJob) -> Vec<u32> {
+    let Ok(bytes) = std::fs::read(&job.path) else {
+        return vec![];
+    };
+    let Ok(font) = FontRef::from_index(&bytes, job.index as u32) else {
+        return vec![];
+    };
+    let Ok(hdmx) = font.hdmx() else {
+        return vec![];
+    };
+    hdmx.records().iter().filter_map(|r| r.ok()).map(|r| r.pixel_size as u32).collect()
+}
+
+/// `base` plus an `hdmx` table (version 0) with one record per size; the device widths
+/// ((gid*37 + size*11) mod 199) + 1 are unrelated to the scaled hmtx advances.
+fn with_hdmx(base: &[u8], glyphs: usize, sizes: &[u8]) -> Vec<u8> {
+    use write_fonts::{types::Tag, FontBuilder};
+    let rec = (2 + glyphs + 3) & !3;
+    let mut t: Vec<u8> = vec![];
+    t.extend_from_slice(&0u16.to_be_bytes());
+    t.extend_from_slice(&(sizes.len() as u16).to_be_bytes());
+    t.extend_from_slice(&(rec as u32).to_be_bytes());
+    for &s in sizes {
+        let widths: Vec<u8> = (0..glyphs).map(|g| ((g * 37 + s as usize * 11) % 199 + 1) as u8).collect();
+        let start = t.len();
+        t.push(s);
+        t.push(*widths.iter().max().unwrap_or(&0));
+        t.extend_from_slice(&widths);
+        t.resize(start + rec, 0);
+    }
+    let font = FontRef::new(base).expect("synthetic base font parses");
+    let mut fb = FontBuilder::new();
+    fb.add_raw(Tag::new(b"hdmx"), t);
+    fb.copy_missing_tables(font);
+    fb.build()
+}
 /// ppem limit of the hinted synthetic TrueType family in the thorough tier (DELTAP3 reaches ppem 56 with
 /// the default delta base; the fonts have ~11 000 glyphs each)
 const HINTED_TT_THOROUGH_N: u32 = 64;
@@ -932,6 +1058,32 @@ fn all_synth_jobs(dir: &std::path::Path) -> Vec<FontJob> {
                 in_quick: (upem == 2048 && (pi == 0 || pi == 2 || pi == 5)) || (upem == 1000 && pi == 1),
             });
         }
+    }
+    // hdmx font: the first simple glyphs of the hinted family (prep "none", unitsPerEm 2048) + an hdmx table
+    {
+        let sub: Vec<synth_hint::HGlyph> = glyphs.iter().filter(|g| g.raw_composite.is_none()).take(48).map(|g| synth_hint::HGlyph {
+            class: g.class.clone(),
+            points: g.points.clone(),
+            code: g.code.clone(),
+            raw_composite: None,
+            contour2: g.contour2.clone(),
+        }).collect();
+        let base = synth_hint::build_font(2048, &[], &sub);
+        let bytes = with_hdmx(&base, sub.len(), &SYNTH_HDMX_SIZES);
+        let path = dir.join("synth-tt-hdmx.ttf");
+        std::fs::write(&path, &bytes).expect("write synthetic font");
+        out.push(FontJob {
+            name: "synth-tt:hdmx".into(),
+            path,
+            index: 0,
+            glyphs: sub.len() as u32,
+            flavour: "glyf",
+            synthetic: true,
+            classes: Some(std::sync::Arc::new(sub.iter().map(|g| format!("hdmx font, hinted {}", g.class)).collect())),
+            auto_modes: false,
+            thorough_n: Some(HINTED_TT_THOROUGH_N),
+            in_quick: true,
+        });
     }
     // CFF family
     let cs = synth_cff::charstrings();
